@@ -1,9 +1,9 @@
 (* C30 proofs, reader side (1): what the reader can rely on at every time t (number of writer operations
    performed so far), derived from the writer invariant. *)
-From Coq Require Import List ZArith NArith Bool Arith Lia.
+From Coq Require Import List ZArith NArith Bool Arith Lia Sorted.
 From GoProbe.Base Require Import CorrLib.
 From GoProbe.C04 Require Import Model.
-From GoProbe.C30 Require Import C04P1 C04P2 C04P3 C04P4 C04P5.
+From GoProbe.C30 Require Import C04P1 C04P2 C04P3 C04P4 C04P5 C04PC.
 From GoProbe.C30 Require Import Model Corr Proofs WInv WInv2 WInv3 WInv4 RSpec.
 Import ListNotations.
 
@@ -31,6 +31,44 @@ Proof.
   intros I. apply in_flat_map in I as ([k d] & I1 & I2). destruct (F (k, d)) eqn:E; [|contradiction].
   destruct I2 as [E2|[]]. cbn in E2. injection E2 as E3 E4. subst. eauto.
 Qed.
+
+(* ------------------------------------------------------------------ pure facts used by the query proof *)
+Lemma read_col_slice d c f off len : d_cols d c = Some f -> len <> 0 -> read_col d c off len = slice f off len.
+Proof. intros E N. unfold read_col, slice. apply Nat.eqb_neq in N. now rewrite N, E. Qed.
+Lemma nth_mid {A B} (f : A -> B) pre x post d : nth (length pre) (map f (pre ++ x :: post)) d = f x.
+Proof. rewrite map_app, app_nth2 by (rewrite map_length; lia). rewrite map_length, Nat.sub_diag. reflexivity. Qed.
+Lemma firstn_mid {A B} (f : A -> B) pre z : firstn (length pre) (map f (pre ++ z)) = map f pre.
+Proof. rewrite map_app. rewrite <- (map_length f pre). rewrite firstn_app, firstn_all, Nat.sub_diag. cbn. now rewrite app_nil_r. Qed.
+
+Definition outspec (tcov : Z) (l : list writeout) : list (Z * nat) :=
+  map (fun w => (w_ts w, w_id w))
+      (filter (fun w => negb (Nat.eqb (w_len w 0) 0)) (filter (fun w => negb (Z.ltb tcov (w_ts w))) l)).
+Lemma outspec_snoc tcov l w : outspec tcov (l ++ [w]) =
+  outspec tcov l ++ (if Z.ltb tcov (w_ts w) then [] else if Nat.eqb (w_len w 0) 0 then [] else [(w_ts w, w_id w)]).
+Proof.
+  unfold outspec. rewrite !filter_app, map_app. f_equal. cbn [filter].
+  destruct (Z.ltb tcov (w_ts w)); cbn; auto. destruct (Nat.eqb (w_len w 0) 0); reflexivity.
+Qed.
+
+Definition ts_sorted (l : list writeout) : Prop := Sorted.StronglySorted (fun a b => (w_ts a < w_ts b)%Z) l.
+Lemma filter_ts_prefix tcov l : ts_sorted l -> exists n, filter (fun w => negb (Z.ltb tcov (w_ts w))) l = firstn n l.
+Proof.
+  induction 1 as [|w l SS0 IH F]; [exists 0; reflexivity|]. cbn [filter].
+  destruct (Z.ltb tcov (w_ts w)) eqn:E; cbn [negb].
+  - exists 0. cbn. apply Z.ltb_lt in E.
+    clear IH SS0. induction l as [|x l IHl]; [reflexivity|]. inversion F; subst. cbn.
+    assert ((tcov <? w_ts x)%Z = true) as -> by (apply Z.ltb_lt; lia). cbn. auto.
+  - destruct IH as [n ->]. exists (Datatypes.S n). reflexivity.
+Qed.
+Lemma sorted_prefix l l' : prefix_of l l' -> ts_sorted l' -> ts_sorted l.
+Proof.
+  intros [r ->]. induction l as [|x l IH]; intros S; [constructor|]. inversion S; subst. constructor.
+  - now apply IH.
+  - apply Forall_app in H2. tauto.
+Qed.
+Lemma spec_blocks_daylist ws k j : spec_blocks ws k j =
+  map (fun w => (w_ts w, w_id w)) (filter (fun w => negb (Nat.eqb (w_len w 0) 0)) (daylist (spec_db [] (firstn j ws)) k)).
+Proof. unfold spec_blocks, daylist. rewrite db_at_spec. destruct (lookup k _); reflexivity. Qed.
 
 Section Env.
 Variable ws : list writeout.
@@ -62,7 +100,7 @@ Proof.
   intros L. destruct (HG t) as [[_ G] B]. specialize (G k). specialize (B k). rewrite L in G.
   fold (dl t k) in B. unfold GoodD in G. unfold dl, daylist in B.
   destruct (lookup k (AA t)) as [bl|] eqn:La.
-  - destruct G as (_ & _ & Ln & HS). rewrite HS. f_equal. symmetry. apply prefix_firstn; auto.
+  - destruct G as (_ & _ & Ln & HS & _). rewrite HS. f_equal. symmetry. apply prefix_firstn; auto.
     pose proof (dl_FL t k) as P. unfold dl, daylist in P. now rewrite La in P.
   - destruct G as [_ HS]. cbn in B. replace (nff t k) with 0 by lia. exact HS.
 Qed.
@@ -79,6 +117,13 @@ Proof.
   destruct (lookup k (AA t)).
   - now destruct G.
   - destruct G as [E1 E2]. destruct N; congruence.
+Qed.
+Lemma vis_cols t k : Vis k t -> exists d, lookup k (f_days (SS t)) = Some d /\ cols_ok d (dl t k) /\ Forall wf_w (dl t k).
+Proof.
+  intros V. destruct (HG t) as [[_ G] _]. specialize (G k). unfold Vis, dl, daylist in *.
+  destruct (lookup k (f_days (SS t))) as [d|].
+  - exists d. split; auto. destruct (lookup k (AA t)); [|contradiction]. now destruct G as (_ & _ & _ & _ & CO & WF).
+  - rewrite G in V. contradiction.
 Qed.
 Lemma SS_split t t' : t <= t' -> exists X, SS t' = apply_all (SS t) X.
 Proof.
@@ -103,6 +148,14 @@ Lemma obs_meta t g : observe (cal_of ws) (SS t) (QOpenMeta (gpath g)) =
 Proof.
   unfold observe, day_dir, day_at, gpath; cbn [dp_key dp_suf].
   destruct (lookup (gk g) (f_days (SS t))) as [d|]; auto. destruct (otot_eqb (d_suf d) (gp g)); auto.
+Qed.
+Lemma obs_col t k hp c : observe (cal_of ws) (SS t) (QOpenCol {| dp_key := k; dp_suf := hp |} c) =
+  ACol (match lookup k (f_days (SS t)) with
+        | Some d => if otot_eqb (d_suf d) hp then d_cols d c else None
+        | None => None end).
+Proof.
+  unfold observe, day_dir, day_at; cbn [dp_key dp_suf].
+  destruct (lookup k (f_days (SS t))) as [d|]; auto. destruct (otot_eqb (d_suf d) hp); auto.
 Qed.
 Lemma obs_month t k : exists l, observe (cal_of ws) (SS t) (month_of (cal_of ws) k) = ADays l /\
   find_day k l = option_map d_suf (lookup k (f_days (SS t))).
@@ -134,24 +187,66 @@ Definition Mk (t : nat) (k : dkey) : option meta :=
 Definition OpenPre (ph : ophase) (g : gdir) (t : nat) : Prop :=
   Was g t /\ Vis (gk g) t /\ match ph with OTry => True | ORec => Gone g t | OTry2 failed => gp g <> failed end.
 
+(* the name hp was the name of day k at some earlier time *)
+Definition WasN (k : dkey) (hp : option totals) (t : nat) : Prop := exists tp, tp <= t /\ sufAt tp k = Some hp.
+Definition colAt (t : nat) (k : dkey) (c : nat) : option (list abyte) :=
+  match lookup k (f_days (SS t)) with Some d => d_cols d c | None => None end.
+(* some committed block of day k has data in column c: the column file exists from then on *)
+Definition Live (k : dkey) (c : nat) (t : nat) : Prop :=
+  exists t0 w, t0 <= t /\ In w (dl t0 k) /\ w_len w c <> 0 /\ c < ncols.
+Definition ReadPre (ph : rphase) (g : gdir) (col : nat) (t : nat) : Prop :=
+  Was g t /\ Vis (gk g) t /\ Live (gk g) col t /\
+  match ph with RTry hp => WasN (gk g) hp t | RTry2 failed => gp g <> failed end.
+
 Fixpoint wp (p : prog) (t : nat) : Prop :=
   match p with
   | Ret r => good r
   | Ask q k => forall t', t <= t' -> wp (k (observe (cal_of ws) (SS t') q)) t'
   | OpenM ph g k =>
     OpenPre ph g t /\
-    forall t' g' m, t <= t' -> gk g' = gk g -> Was g' t' ->
-      (exists t0, t <= t0 /\ t0 <= t' /\ Mk t0 (gk g) = Some m) -> wp (k (Some (g', m))) t'
-  | ReadC _ _ _ _ _ => False
+    forall t' g' m, t <= t' -> gk g' = gk g ->
+      (exists t0, t <= t0 /\ t0 <= t' /\ Mk t0 (gk g) = Some m /\ sufAt t0 (gk g) = Some (gp g')) ->
+      wp (k (Some (g', m))) t'
+  | ReadC ph g m col k =>
+    ReadPre ph g col t /\
+    forall t' g' m' f, t <= t' -> gk g' = gk g -> Was g' t' ->
+      (m' = m \/ exists tm, t <= tm /\ tm <= t' /\ Mk tm (gk g) = Some m') ->
+      (exists tf, t <= tf /\ tf <= t' /\ colAt tf (gk g) col = Some f) ->
+      wp (k (Some (g', m', f))) t'
   end.
 
 Lemma Was_mono g t t' : t <= t' -> Was g t -> Was g t'.
 Proof. intros L (tp & L1 & E). exists tp. split; [lia|auto]. Qed.
 
+Lemma Vis_lookup t k : Vis k t -> lookup k (f_days (SS t)) <> None.
+Proof. intros V. destruct (vis_day t k V) as (d & L & _). congruence. Qed.
+Lemma norec_suf tp ta tb k x : tp <= ta -> ta <= tb -> sufAt tp k = Some x -> sufAt tb k = Some x ->
+  sufAt ta k <> None -> sufAt ta k = Some x.
+Proof.
+  unfold sufAt. intros L1 L2 E1 E3 N2.
+  destruct (lookup k (f_days (SS tp))) as [d1|] eqn:D1; [|discriminate].
+  destruct (lookup k (f_days (SS ta))) as [d2|] eqn:D2; [|contradiction].
+  destruct (lookup k (f_days (SS tb))) as [d3|] eqn:D3; [|discriminate].
+  cbn in *. injection E1 as E1. injection E3 as E3. f_equal.
+  rewrite (norec tp ta tb k d1 d2 d3); auto. congruence.
+Qed.
+Lemma Live_mono k c t t' : t <= t' -> Live k c t -> Live k c t'.
+Proof. intros L (t0 & w & L0 & R). exists t0, w. split; [lia|auto]. Qed.
+Lemma live_col k c t t' d : Live k c t -> t <= t' -> lookup k (f_days (SS t')) = Some d -> d_cols d c <> None.
+Proof.
+  intros (t0 & w & L0 & I & NZ & Hc) L Ld.
+  destruct (dl_mono t0 t' k ltac:(lia)) as [r E].
+  assert (I' : In w (dl t' k)) by (rewrite E; apply in_or_app; now left).
+  assert (V : Vis k t') by (unfold Vis; destruct (dl t' k); [contradiction|discriminate]).
+  destruct (vis_cols t' k V) as (d' & Ld' & CO & _). rewrite Ld in Ld'. injection Ld' as <-.
+  apply in_split in I' as (pre & post & EP). specialize (CO pre w post EP c Hc).
+  unfold read_col in CO. apply Nat.eqb_neq in NZ. rewrite NZ in CO. destruct (d_cols d c); [discriminate|discriminate].
+Qed.
+
 Lemma to_rec g k t t' : t <= t' -> Was g t -> Vis (gk g) t' ->
   (forall d, lookup (gk g) (f_days (SS t')) = Some d -> otot_eqb (d_suf d) (gp g) = false) ->
-  (forall t2 g' m, t <= t2 -> gk g' = gk g -> Was g' t2 ->
-      (exists t0, t <= t0 /\ t0 <= t2 /\ Mk t0 (gk g) = Some m) -> wp (k (Some (g', m))) t2) ->
+  (forall t2 g' m, t <= t2 -> gk g' = gk g ->
+      (exists t0, t <= t0 /\ t0 <= t2 /\ Mk t0 (gk g) = Some m /\ sufAt t0 (gk g) = Some (gp g')) -> wp (k (Some (g', m))) t2) ->
   wp (OpenM ORec g k) t'.
 Proof.
   intros L W V NE Post. cbn [wp]. split.
@@ -160,7 +255,31 @@ Proof.
     + destruct (vis_day t' _ V) as (d & Ld & _). unfold sufAt. rewrite Ld. cbn. intros [= E2].
       specialize (NE d Ld). rewrite E2, otot_eqb_refl in NE. discriminate.
     + destruct (vis_day t' _ V) as (d & Ld & _). unfold sufAt. rewrite Ld. discriminate.
-  - intros t2 g' m L2 K W' (t0 & A1 & A2 & A3). apply Post; auto; try lia. exists t0. repeat split; auto; lia.
+  - intros t2 g' m L2 K (t0 & A1 & A2 & A3 & A4). apply Post; auto; try lia. exists t0. repeat split; auto; lia.
+Qed.
+
+Definition PostR (k : option (gdir * meta * list abyte) -> prog) (key : dkey) (col : nat) (te : nat) (m : meta) : Prop :=
+  forall t' g' m' f, te <= t' -> gk g' = key -> Was g' t' ->
+    (m' = m \/ exists tm, te <= tm /\ tm <= t' /\ Mk tm key = Some m') ->
+    (exists tf, te <= tf /\ tf <= t' /\ colAt tf key col = Some f) ->
+    wp (k (Some (g', m', f))) t'.
+
+Lemma wp_reopen failed g col k m t te : te <= t -> Was g t -> Vis (gk g) t -> Live (gk g) col t ->
+  WasN (gk g) failed t -> sufAt t (gk g) <> Some failed -> PostR k (gk g) col te m ->
+  wp (reopen failed g col k) t.
+Proof.
+  intros Le W V LV (tp & Lp & Ep) NE Post. unfold reopen. cbn [wp]. split; [repeat split; auto|].
+  intros t2 g' m' L2 K (t0 & A1 & A2 & A3 & A4). cbn [wp]. split.
+  - split; [exists t0; split; [auto|now rewrite K]|]. split; [rewrite K; eapply Vis_mono; [|eauto]; lia|].
+    split; [rewrite K; eapply Live_mono; [|eauto]; lia|].
+    intros E. apply NE. apply (norec_suf tp t t0); auto.
+    + now rewrite <- E.
+    + unfold sufAt. destruct (lookup (gk g) (f_days (SS t))) eqn:Lk; [discriminate|]. now apply Vis_lookup in V.
+  - intros t3 g'' m'' f L3 K2 W2 HM HF. rewrite K in *. apply Post; auto; try lia.
+    + destruct HM as [->|(tm & B1 & B2 & B3)].
+      * right. exists t0. repeat split; auto; lia.
+      * right. exists tm. repeat split; auto; lia.
+    + destruct HF as (tf & B1 & B2 & B3). exists tf. repeat split; auto; lia.
 Qed.
 
 Lemma wp_step p t t' : wp p t -> t <= t' ->
@@ -171,29 +290,48 @@ Proof.
   - unfold rstep; cbn. now apply W.
   - destruct W as ((Ws & V & PH) & Post).
     pose proof (Vis_mono _ _ _ L V) as V'. destruct (vis_day t' _ V') as (d & Ld & Md).
-    assert (OK : forall g0, gk g0 = gk g -> gp g0 = gp g -> Was g0 t' -> otot_eqb (d_suf d) (gp g) = true ->
+    assert (OK : forall g0, gk g0 = gk g -> gp g0 = gp g -> otot_eqb (d_suf d) (gp g) = true ->
                  wp (k (Some (g0, meta_of (dl t' (gk g))))) t').
-    { intros g0 K0 P0 W0 _. apply Post; auto. exists t'. repeat split; auto. unfold Mk. now rewrite Ld, Md. }
+    { intros g0 K0 P0 EQ. apply Post; auto. exists t'. repeat split; auto.
+      - unfold Mk. now rewrite Ld, Md.
+      - unfold sufAt. rewrite Ld. cbn. apply otot_eqb_eq in EQ. now rewrite EQ, P0. }
     destruct ph as [| |failed]; unfold rstep; cbn [step_obs rstep_ans].
     + rewrite obs_meta, Ld. destruct (otot_eqb (d_suf d) (gp g)) eqn:EQ.
-      * rewrite Md. apply OK; auto. eapply Was_mono; eauto.
+      * rewrite Md. apply OK; auto.
       * apply (to_rec g k t t'); auto. intros d0 Ld0. rewrite Ld in Ld0. now injection Ld0 as <-.
     + destruct (obs_month t' (gk g)) as (l & El & Fl). rewrite El, Fl, Ld. cbn [option_map].
       cbn [wp]. split.
       * split; [exists t'; split; auto; unfold sufAt; cbn [gk gp]; now rewrite Ld|]. split; [exact V'|].
         cbn [gp]. intros E.
-        destruct PH as (tp & ta & L1 & L2 & E1 & E2 & E3). unfold sufAt in E1, E2, E3.
-        destruct (lookup (gk g) (f_days (SS tp))) as [d1|] eqn:D1; [|discriminate].
-        destruct (lookup (gk g) (f_days (SS ta))) as [d2|] eqn:D2; [|now apply E3].
-        cbn in E1, E2. injection E1 as E1.
-        assert (d_suf d2 = d_suf d1) by (apply (norec tp ta t' (gk g) d1 d2 d); auto; try lia; congruence).
-        apply E2. congruence.
-      * intros t2 g' m0 L2 K W' (t0 & A1 & A2 & A3). apply Post; auto; try lia. exists t0. repeat split; auto; lia.
+        destruct PH as (tp & ta & L1 & L2 & E1 & E2 & E3).
+        apply E2. apply (norec_suf tp ta t'); auto; try lia.
+        unfold sufAt. rewrite Ld. cbn. now rewrite E.
+      * intros t2 g' m0 L2 K (t0 & A1 & A2 & A3 & A4). apply Post; auto; try lia. exists t0. repeat split; auto; lia.
     + rewrite obs_meta, Ld. destruct (otot_eqb (d_suf d) (gp g)) eqn:EQ.
-      * rewrite Md. apply OK; auto. eapply Was_mono; eauto.
+      * rewrite Md. apply OK; auto.
       * destruct (otot_eqb (gp g) failed) eqn:EF; [apply otot_eqb_eq in EF; contradiction|].
         apply (to_rec g k t t'); auto. intros d0 Ld0. rewrite Ld in Ld0. now injection Ld0 as <-.
-  - contradiction.
+  - destruct W as ((Ws & V & LV & PH) & Post).
+    pose proof (Vis_mono _ _ _ L V) as V'. destruct (vis_day t' _ V') as (d & Ld & Md).
+    pose proof (live_col _ _ _ _ _ LV L Ld) as DC.
+    assert (OK : forall f, d_cols d col = Some f -> wp (k (Some (g, m, f))) t').
+    { intros f Ef. apply Post; auto.
+      - eapply Was_mono; eauto.
+      - exists t'. repeat split; auto. unfold colAt. now rewrite Ld. }
+    assert (RE : forall failed, WasN (gk g) failed t -> otot_eqb (d_suf d) failed = false -> wp (reopen failed g col k) t').
+    { intros failed (tp & Lp & Ep) EQ. apply (wp_reopen failed g col k m t' t); auto.
+      - eapply Was_mono; eauto.
+      - eapply Live_mono; eauto.
+      - exists tp. split; [lia|auto].
+      - unfold sufAt. rewrite Ld. cbn. intros [= E]. rewrite E, otot_eqb_refl in EQ. discriminate. }
+    destruct ph as [hp|failed]; unfold rstep; cbn [step_obs rstep_ans].
+    + rewrite obs_col, Ld. destruct (otot_eqb (d_suf d) hp) eqn:EQ.
+      * destruct (d_cols d col) as [f|] eqn:Ef; [|contradiction]. now apply OK.
+      * now apply RE.
+    + unfold gpath. rewrite obs_col, Ld. destruct (otot_eqb (d_suf d) (gp g)) eqn:EQ.
+      * destruct (d_cols d col) as [f|] eqn:Ef; [|contradiction]. now apply OK.
+      * destruct (otot_eqb (gp g) failed) eqn:EF; [apply otot_eqb_eq in EF; contradiction|].
+        apply RE; auto.
 Qed.
 
 Theorem wp_sound_gen : forall s ops p out, conc (cal_of ws) s ops p out ->
@@ -317,7 +455,7 @@ Lemma wp_open_check g (kk : meta -> prog) t :
                             | Some (_, m) => if is_nil (m_blocks m) then Ret Panic else kk m end)) t.
 Proof.
   intros W V HK. cbn [wp]. split; [repeat split; auto|].
-  intros t' g' m L K W' (t0 & A1 & A2 & A3). destruct (Mk_meta _ _ _ A3) as [-> V0].
+  intros t' g' m L K (t0 & A1 & A2 & A3 & A4). destruct (Mk_meta _ _ _ A3) as [-> V0].
   rewrite meta_nonempty by auto. apply HK; auto. exists t0. repeat split; auto.
 Qed.
 
@@ -354,7 +492,7 @@ Proof.
     destruct suf as [tt|].
     + apply (FIN tt None t1); auto. { eapply name_tot_ok; eauto. } discriminate.
     + cbn [wp]. split; [repeat split; auto|].
-      intros t' g' m L K W' (t0 & A1 & A2 & A3). destruct (Mk_meta _ _ _ A3) as [-> V0].
+      intros t' g' m L K (t0 & A1 & A2 & A3 & A4). destruct (Mk_meta _ _ _ A3) as [-> V0].
       apply (FIN _ (Some (meta_of (dl t0 key))) t'); auto.
       * now apply meta_tot_ok.
       * intros m [= <-]. now apply meta_nonempty.
@@ -371,5 +509,266 @@ Proof.
   apply (wp_each (fun acc _ => Forall tot_ok acc)); auto.
   - intros i acc t1 kk _ _ A HK. apply wp_list_iface; auto.
   - intros acc t' _ A. cbn [wp]. now apply good_list.
+Qed.
+(* ------------------------------------------------------------------ the query: reading one column block *)
+Definition dflt_mb : mblock := {| mb_ts := 0; mb_lens := [] |}.
+Lemma blk_len_at k T0 tm pre x post c : dl T0 k = pre ++ x :: post -> T0 <= tm -> c < ncols ->
+  nth c (mb_lens (nth (length pre) (m_blocks (meta_of (dl tm k))) dflt_mb)) 0 = w_len x c.
+Proof.
+  intros E L Hc. destruct (dl_mono T0 tm k L) as [r Er]. rewrite Er, E, <- app_assoc, <- app_comm_cons.
+  rewrite meta_of_blocks, nth_mid. now apply mbw_len.
+Qed.
+Lemma blk_off_at k T0 tm pre x post c : dl T0 k = pre ++ x :: post -> T0 <= tm ->
+  offs_upto c (firstn (length pre) (m_blocks (meta_of (dl tm k)))) = clen c pre.
+Proof.
+  intros E L. destruct (dl_mono T0 tm k L) as [r Er]. rewrite Er, E, <- app_assoc.
+  rewrite meta_of_blocks, firstn_mid. reflexivity.
+Qed.
+Lemma snap_read k T0 tf pre x post c f : dl T0 k = pre ++ x :: post -> T0 <= tf -> c < ncols -> w_len x c <> 0 ->
+  colAt tf k c = Some f -> slice f (clen c pre) (w_len x c) = Some (blk x c).
+Proof.
+  intros E L Hc NZ CA. unfold colAt in CA. destruct (lookup k (f_days (SS tf))) as [d|] eqn:Ld; [|discriminate].
+  destruct (dl_mono T0 tf k L) as [r Er].
+  assert (V : Vis k tf) by (unfold Vis; rewrite Er, E; destruct pre; discriminate).
+  destruct (vis_cols tf k V) as (d' & Ld' & CO & _). rewrite Ld in Ld'. injection Ld' as <-.
+  rewrite <- (read_col_slice d c f) by auto. apply (CO pre x (post ++ r)); auto.
+  rewrite Er, E, <- app_assoc. reflexivity.
+Qed.
+
+Definition WOK (k : dkey) (T0 : nat) (w : wdir) (t : nat) : Prop :=
+  wd_open w = true /\ gk (wd_g w) = k /\ Was (wd_g w) t /\
+  (exists tm, T0 <= tm /\ tm <= t /\ wd_m w = meta_of (dl tm k)) /\
+  (forall c hp, col_get c (wd_cols w) = Some (hp, None) -> WasN k hp t) /\
+  (forall c hp f, col_get c (wd_cols w) = Some (hp, Some f) -> exists tf, T0 <= tf /\ tf <= t /\ colAt tf k c = Some f).
+Lemma WasN_mono k hp t t' : t <= t' -> WasN k hp t -> WasN k hp t'.
+Proof. intros L (tp & L1 & E). exists tp. split; [lia|auto]. Qed.
+Lemma WOK_mono k T0 w t t' : t <= t' -> WOK k T0 w t -> WOK k T0 w t'.
+Proof.
+  intros L (A1 & A2 & A3 & (tm & B1 & B2 & B3) & A5 & A6). repeat split; auto.
+  - eapply Was_mono; eauto.
+  - exists tm. repeat split; auto; lia.
+  - intros c hp E. eapply WasN_mono; eauto.
+  - intros c hp f E. destruct (A6 c hp f E) as (tf & C1 & C2 & C3). exists tf. repeat split; auto; lia.
+Qed.
+
+Lemma wp_read_block k T0 pre x post w c (kk : wdir -> option (list abyte) -> prog) t :
+  dl T0 k = pre ++ x :: post -> T0 <= t -> c < ncols -> WOK k T0 w t ->
+  (forall w' t', t <= t' -> WOK k T0 w' t' -> wp (kk w' (Some (blk x c))) t') ->
+  wp (read_block w (length pre) c kk) t.
+Proof.
+  intros E LT Hc (O & K & W & (tm & B1 & B2 & B3) & HN & HS) HK.
+  assert (WK : WOK k T0 w t) by (repeat split; auto; exists tm; auto).
+  assert (V0 : Vis k T0) by (unfold Vis; rewrite E; destruct pre; discriminate).
+  unfold read_block. rewrite O. cbn [negb]. cbv zeta. fold dflt_mb.
+  rewrite B3, (blk_len_at k T0 tm pre x post c E B1 Hc).
+  destruct (Nat.eqb (w_len x c) 0) eqn:Z.
+  - (* empty column block: the handle is created, the file is not opened *)
+    apply Nat.eqb_eq in Z. replace (Some []) with (Some (blk x c)) by (unfold blk; now rewrite Z).
+    apply HK; auto. destruct (col_get c (wd_cols w)) as [h|] eqn:CG; [exact WK|].
+    repeat split; auto; cbn [wd_cols wd_g wd_m].
+    + exists tm; auto.
+    + intros c' hp. cbn [col_get]. destruct (Nat.eqb c' c); [|apply HN].
+      intros [= <-]. rewrite <- K. exact W.
+    + intros c' hp f. cbn [col_get]. destruct (Nat.eqb c' c); [discriminate|apply HS].
+  - apply Nat.eqb_neq in Z.
+    assert (RD : forall hp, WasN k hp t ->
+      wp (ReadC (RTry hp) (wd_g w) (meta_of (dl tm k)) c (fun r => match r with
+             | None => kk {| wd_g := wd_g w; wd_m := meta_of (dl tm k); wd_cols := []; wd_open := false |} None
+             | Some (g', m', f) =>
+               kk {| wd_g := g'; wd_m := m'; wd_cols := (c, (gp g', Some f)) :: wd_cols w; wd_open := true |}
+                 (slice f (offs_upto c (firstn (length pre) (m_blocks m')))
+                          (nth c (mb_lens (nth (length pre) (m_blocks m') dflt_mb)) 0))
+             end)) t).
+    { intros hp WN. cbn [wp]. split.
+      - repeat split; auto; rewrite K; auto.
+        + eapply Vis_mono; [|exact V0]; auto.
+        + exists tm, x. repeat split; auto. destruct (dl_mono T0 tm k B1) as [r ->]. rewrite E.
+          apply in_or_app. left. apply in_or_app. right. now left.
+      - intros t' g' m' f L K' W' HM HF. rewrite K in *.
+        assert (MM : exists tm', T0 <= tm' /\ tm' <= t' /\ m' = meta_of (dl tm' k)).
+        { destruct HM as [->|(tm' & C1 & C2 & C3)]; [exists tm; repeat split; auto; lia|].
+          destruct (Mk_meta _ _ _ C3) as [-> _]. exists tm'. repeat split; auto; lia. }
+        destruct MM as (tm' & C1 & C2 & ->). destruct HF as (tf & D1 & D2 & D3).
+        rewrite (blk_len_at k T0 tm' pre x post c E C1 Hc), (blk_off_at k T0 tm' pre x post c E C1).
+        rewrite (snap_read k T0 tf pre x post c f E ltac:(lia) Hc Z D3).
+        apply HK; auto. repeat split; auto; cbn [wd_cols wd_g wd_m].
+        + exists tm'. repeat split; auto.
+        + intros c' hp'. cbn [col_get]. destruct (Nat.eqb c' c); [discriminate|].
+          intros E'. eapply WasN_mono; [|eapply HN; eauto]; auto.
+        + intros c' hp' f'. cbn [col_get]. destruct (Nat.eqb c' c) eqn:EC.
+          * intros [= <- <-]. apply Nat.eqb_eq in EC. subst c'. exists tf. repeat split; auto; lia.
+          * intros E'. destruct (HS c' hp' f' E') as (tf' & F1 & F2 & F3). exists tf'. repeat split; auto; lia. }
+    destruct (col_get c (wd_cols w)) as [[hp [f|]]|] eqn:CG.
+    + destruct (HS c hp f CG) as (tf & F1 & F2 & F3).
+      rewrite (blk_off_at k T0 tm pre x post c E B1), (snap_read k T0 tf pre x post c f E F1 Hc Z F3).
+      apply HK; auto.
+    + apply RD. eapply HN; eauto.
+    + apply RD. rewrite <- K. exact W.
+Qed.
+(* ------------------------------------------------------------------ the query: the loops of readBlocksAndEvaluate *)
+Definition col_body (i : nat) :=
+  fun (c : nat) (st2 : wdir * list (list abyte) * bool) (kc : wdir * list (list abyte) * bool -> prog) =>
+    let '(w2, datas, good) := st2 in
+    if good then read_block w2 i c (fun w3 r => match r with
+                                                | Some d => kc (w3, datas ++ [d], true)
+                                                | None => kc (w3, datas, false) end)
+    else kc st2.
+Definition col_fin (ib : nat * mblock) (out : list (Z * nat)) (broken : nat) (kb : wdir * list (Z * nat) * nat -> prog) :=
+  fun (st2 : wdir * list (list abyte) * bool) =>
+    let '(w2, datas, good) := st2 in
+    if negb good then kb (w2, out, S broken)
+    else if Nat.eqb (nth 0 (mb_lens (snd ib)) 0) 0 then kb (w2, out, broken)
+    else match decode_block datas (mb_lens (snd ib)) with
+         | Some id => kb (w2, out ++ [(mb_ts (snd ib), id)], broken)
+         | None => kb (w2, out ++ [(mb_ts (snd ib), 999)], broken)
+         end.
+Definition blk_body (tcov : Z) :=
+  fun (ib : nat * mblock) (st : wdir * list (Z * nat) * nat) (kb : wdir * list (Z * nat) * nat -> prog) =>
+    let '(w, out, broken) := st in
+    if Z.ltb tcov (mb_ts (snd ib)) then kb st
+    else each cols (w, ([] : list (list abyte)), true) (col_body (fst ib)) (col_fin ib out broken kb).
+Lemma work_dir_eq tcov g acc k : work_dir tcov g acc k =
+  OpenM OTry g (fun r => match r with
+  | None => Ret Err
+  | Some (g', m) =>
+    each (combine (seq 0 (length (m_blocks m))) (m_blocks m))
+         ({| wd_g := g'; wd_m := m; wd_cols := []; wd_open := true |}, ([] : list (Z * nat)), snd acc)
+         (blk_body tcov)
+         (fun st => let '(_, out, broken) := st in k (fst acc ++ [(gk g, out)], broken))
+  end).
+Proof. reflexivity. Qed.
+
+Lemma wp_cols_loop k T0 pre x post kfin : dl T0 k = pre ++ x :: post ->
+  forall cpost cpre, (forall c, In c cpost -> c < ncols) ->
+  forall w t, T0 <= t -> WOK k T0 w t ->
+  (forall w' t', t <= t' -> WOK k T0 w' t' -> wp (kfin (w', map (blk x) (cpre ++ cpost), true)) t') ->
+  wp (each cpost (w, map (blk x) cpre, true) (col_body (length pre)) kfin) t.
+Proof.
+  intros E. induction cpost as [|c cpost IH]; intros cpre HC w t LT WK HK; cbn [each].
+  - rewrite app_nil_r in HK. apply HK; auto.
+  - unfold col_body at 1. cbv beta iota.
+    apply (wp_read_block k T0 pre x post w c _ t E LT (HC c (or_introl eq_refl)) WK).
+    intros w' t' L' WK'. replace (map (blk x) cpre ++ [blk x c]) with (map (blk x) (cpre ++ [c])) by (now rewrite map_app).
+    apply IH; auto; try lia.
+    + intros c' I. apply HC. now right.
+    + intros w2 t2 L2 WK2. rewrite <- app_assoc. apply HK; auto. lia.
+Qed.
+
+Lemma wp_blocks_loop k T0 tcov kfin : Vis k T0 ->
+  forall post pre, dl T0 k = pre ++ post ->
+  forall w broken t, T0 <= t -> WOK k T0 w t ->
+  (forall w' t', t <= t' -> wp (kfin (w', outspec tcov (pre ++ post), broken)) t') ->
+  wp (each (combine (seq (length pre) (length post)) (map mbw post)) (w, outspec tcov pre, broken) (blk_body tcov) kfin) t.
+Proof.
+  intros V0. destruct (vis_cols T0 k V0) as (d0 & _ & _ & WF).
+  induction post as [|x post IH]; intros pre E w broken t LT WK HK.
+  - cbn. rewrite app_nil_r in HK. apply HK; auto.
+  - cbn [length seq map combine each].
+    assert (WFx : wf_w x). { rewrite Forall_forall in WF. apply WF. rewrite E. apply in_or_app. right. now left. }
+    assert (NEXT : forall w' t', t <= t' -> WOK k T0 w' t' ->
+              wp (each (combine (seq (S (length pre)) (length post)) (map mbw post)) (w', outspec tcov (pre ++ [x]), broken)
+                       (blk_body tcov) kfin) t').
+    { intros w' t' L' WK'. replace (S (length pre)) with (length (pre ++ [x])) by (rewrite app_length; cbn; lia).
+      apply IH; auto; try lia.
+      - rewrite <- app_assoc. exact E.
+      - intros w2 t2 L2. rewrite <- app_assoc. apply HK. lia. }
+    unfold blk_body at 1. cbv beta iota. cbn [snd fst mbw mb_ts].
+    destruct (Z.ltb tcov (w_ts x)) eqn:ET.
+    + pose proof (NEXT w t (le_n _) WK) as N. rewrite outspec_snoc, ET, app_nil_r in N. exact N.
+    + apply (wp_cols_loop k T0 pre x post _ E cols []); auto.
+      * intros c. apply in_cols.
+      * intros w' t' L' WK'. cbn [app]. unfold col_fin. cbv beta iota. cbn [negb snd].
+        change (mb_lens {| mb_ts := w_ts x; mb_lens := map (w_len x) cols |}) with (mb_lens (mbw x)).
+        rewrite mbw_len by (unfold ncols; lia).
+        pose proof (NEXT w' t' L' WK') as N. rewrite outspec_snoc, ET in N.
+        destruct (Nat.eqb (w_len x 0) 0).
+        -- rewrite app_nil_r in N. exact N.
+        -- rewrite decode_ok by auto. exact N.
+Qed.
+(* ------------------------------------------------------------------ the query of an interface, of all interfaces *)
+Definition day_ok (e : dkey * list (Z * nat)) : Prop := exists j, j <= length ws /\ snd e = spec_blocks ws (fst e) j.
+Definition QOK (acc : list (dkey * list (Z * nat)) * nat) : Prop := Forall day_ok (fst acc) /\ snd acc = 0.
+(* the block timestamps of a day increase strictly (DBWriter rejects any other block) *)
+Hypothesis TS : forall k, ts_sorted (FL k).
+Hypothesis good_query : forall acc, QOK acc -> good (Ok {| o_days := fst acc; o_tots := []; o_broken := snd acc |}).
+
+Lemma outspec_ok tcov t k : day_ok (k, outspec tcov (dl t k)).
+Proof.
+  assert (SO : ts_sorted (dl t k)) by (eapply sorted_prefix; [apply dl_FL|apply TS]).
+  destruct (filter_ts_prefix tcov _ SO) as [n En].
+  assert (EN : exists n', n' <= length (dl t k) /\ firstn n (dl t k) = firstn n' (dl t k)).
+  { destruct (Nat.le_gt_cases n (length (dl t k))); [eauto|].
+    exists (length (dl t k)). split; auto. now rewrite firstn_all, firstn_all2 by lia. }
+  destruct EN as (n' & Ln & E2).
+  destruct (db_prefix_is_db ws k (jf t) n' Ln) as (j' & Lj & Ej).
+  exists j'. split; [specialize (Bj t); lia|]. cbn [fst snd].
+  rewrite spec_blocks_daylist, Ej. unfold outspec. rewrite En, E2. reflexivity.
+Qed.
+
+Lemma wp_work_dir tcov g acc kk t : Was g t -> Vis (gk g) t -> QOK acc ->
+  (forall acc' t', t <= t' -> QOK acc' -> wp (kk acc') t') -> wp (work_dir tcov g acc kk) t.
+Proof.
+  intros W V [QA QB] HK. rewrite work_dir_eq. cbn [wp]. split; [repeat split; auto|].
+  intros t' g' m L K (t0 & A1 & A2 & A3 & A4). destruct (Mk_meta _ _ _ A3) as [-> V0].
+  rewrite meta_of_blocks, map_length.
+  apply (wp_blocks_loop (gk g) t0 tcov _ V0 (dl t0 (gk g)) []); auto.
+  - repeat split; auto; cbn [wd_g wd_m wd_cols wd_open].
+    + exists t0. split; [auto|]. now rewrite K.
+    + exists t0. repeat split; auto.
+    + intros c hp; discriminate.
+    + intros c hp f; discriminate.
+  - intros w' t2 L2. cbn [app]. apply HK; [lia|]. split; cbn [fst snd]; auto.
+    apply Forall_app; split; auto. constructor; auto. apply outspec_ok.
+Qed.
+
+Lemma in_set_last {A} (l : list A) y x : In x (set_last l y) -> In x l \/ x = y.
+Proof.
+  induction l as [|a l IH]; cbn; [tauto|]. destruct l as [|b l]; cbn in *.
+  - intros [<-|[]]. now right.
+  - intros [<-|I]; [left; now left|]. destruct (IH I) as [H|H]; [left; now right|now right].
+Qed.
+
+Definition DInv (dirs : list gdir) (t : nat) : Prop := Forall (fun g => Was g t /\ Vis (gk g) t) dirs.
+Lemma DInv_mono dirs t t' : t <= t' -> DInv dirs t -> DInv dirs t'.
+Proof.
+  intros L. apply Forall_impl. intros g [W V]. split; [eapply Was_mono|eapply Vis_mono]; eauto.
+Qed.
+
+Lemma wp_query_iface i acc k t : QOK acc ->
+  (forall acc' t', t <= t' -> QOK acc' -> wp (k acc') t') -> wp (query_iface i acc k) t.
+Proof.
+  intros Q HK. unfold query_iface.
+  apply (wp_walk DInv); [intros; eapply DInv_mono; eauto| |constructor|].
+  - intros key suf dirs t1 kw I W V HKW. cbv beta zeta.
+    destruct dirs as [|g0 r]; cbn [is_nil].
+    + cbn [wp]. split; [repeat split; auto|].
+      intros t' g' m L K (t0 & A1 & A2 & A3 & A4). destruct (Mk_meta _ _ _ A3) as [-> V0].
+      rewrite meta_nonempty by auto. apply HKW; auto. constructor; [|constructor].
+      cbn [gk] in *. split; [exists t0; split; [auto|now rewrite K]|rewrite K; eapply Vis_mono; [|eauto]; auto].
+    + apply HKW; auto. apply Forall_app. split; auto.
+  - intros dirs t' L I. destruct (rev dirs) as [|gl rest] eqn:ER; [apply HK; auto|].
+    assert (IG : In gl dirs) by (apply in_rev; rewrite ER; now left).
+    unfold DInv in I. rewrite Forall_forall in I. destruct (I gl IG) as [W V].
+    cbn [wp]. split; [repeat split; auto|].
+    intros t2 g' m L2 K (t0 & A1 & A2 & A3 & A4). destruct (Mk_meta _ _ _ A3) as [-> V0].
+    rewrite meta_nonempty by auto.
+    apply (wp_each (fun a (_ : nat) => QOK a)); auto.
+    + intros g acc1 t3 kk L3 IN Q1 HK3. apply wp_work_dir; auto.
+      * destruct (in_set_last _ _ _ IN) as [I0| ->].
+        -- destruct (I g I0) as [W0 _]. eapply Was_mono; [|eauto]; lia.
+        -- exists t0. split; [lia|now rewrite K].
+      * destruct (in_set_last _ _ _ IN) as [I0| ->].
+        -- destruct (I g I0) as [_ V1]. eapply Vis_mono; [|eauto]; lia.
+        -- rewrite K. eapply Vis_mono; [|eauto]; lia.
+    + intros acc' t3 L3 Q3. apply HK; auto. lia.
+Qed.
+
+Theorem wp_reader_query : wp (reader_prog true) 0.
+Proof.
+  unfold reader_prog. cbn [wp]. intros t L. cbn [observe].
+  apply (wp_each (fun a (_ : nat) => QOK a)).
+  - intros i acc t1 kk _ _ A HK. apply wp_query_iface; auto.
+  - split; [constructor|reflexivity].
+  - intros acc t' _ A. cbn [wp]. now apply good_query.
 Qed.
 End Env.
